@@ -12,6 +12,7 @@ use crate::refmodel::schema::RefSchema;
 use crate::runner::{Ctx, Outcome, Prop, Tier};
 use apollo_compiler::validation::Valid;
 use apollo_compiler::{ExecutableDocument, Schema};
+use std::collections::BTreeSet;
 
 pub const SEP: &str = "\n#---\n";
 
@@ -27,14 +28,18 @@ pub fn prop() -> Prop {
          Schema::parse_and_validate + ExecutableDocument::parse_and_validate; the reference verdict is computed by \
          PARSING THE PRINTED TEXTS with the reference parser and running refmodel::execvalid (never from knowledge of \
          the mutator). Compared: Ok/Err. Non-trivial: at least one mutator was applied; distinct by the two texts. \
-         Classes: mutator x reference verdict.",
+         Classes: mutator x reference verdict; violated:<rule code> for every code the reference reports; \
+         satisfied:<construct> for the constructs of documents the reference accepts; unspecified:<reason>. \
+         Two cases in three use a schema extended by a fixed fixture (gen::opfixture: arguments of every input type, \
+         interface with two implementers of differing field shapes, union, custom directives on every executable location).",
     )
-    .random("pairs", check, |t| if t == Tier::Quick { 120_000 } else { 2_000_000 }, |t| if t == Tier::Quick { 700 } else { 1000 })
+    .random("pairs", check, |t| if t == Tier::Quick { 120_000 } else { 2_400_000 }, |t| if t == Tier::Quick { 700 } else { 1000 })
     .text(check_text)
+    .case_timeout(120)
     .assumptions(&[
         "oracle = refmodel::execvalid, written from the October 2021 spec text (graphql-js is not installable offline)",
         "encoded apollo differences: operation on an undefined root type is invalid; @skip/@include among a subscription's root selections is invalid; a type condition equal to the parent type always applies",
-        "reference verdict Unspecified (cases run for crashes only): arguments of merging fields equal only up to object field order / number formatting / string syntax; variables inside custom-scalar literals; numeric literals outside f64; @skip/@include below a non-applying fragment at a subscription root",
+        "reference verdict Unspecified (cases run for crashes only): arguments of merging fields equal only up to object field order / number formatting / string syntax; variables inside custom-scalar literals; numeric literals outside f64; a bare (non-list) item inside a list literal whose item type is itself a list (October 2021 table vs prose); @skip/@include below a non-applying fragment at a subscription root",
         "never generated: @defer/@stream; nesting deeper than 8 fields; documents above ~60 selections",
         "the schema side is always valid (gen::schema); schema/document pairs whose schema apollo rejects are skipped and counted",
     ])
@@ -49,23 +54,43 @@ pub struct Case {
 /// Decode one schema + executable document pair (shared with C18–C20). The mutation plan is read
 /// FIRST so that it does not depend on how much of the stream the generators consume.
 pub fn gen_case(c: &mut Choices, allow_mutation: bool) -> Case {
+    gen_case_mode(c, if allow_mutation { Mode::Rules } else { Mode::Unmutated })
+}
+
+#[derive(Clone, Copy, PartialEq, Eq, Debug)]
+pub enum Mode {
+    /// no mutation: valid by construction
+    Unmutated,
+    /// 0-2 mutators, rule-targeted or validity preserving (C17, C18)
+    Rules,
+    /// 0-2 validity-preserving mutations only (C19, C20: properties about VALID documents)
+    Neutral,
+}
+
+pub fn gen_case_mode(c: &mut Choices, mode: Mode) -> Case {
+    let allow_mutation = mode != Mode::Unmutated;
     let n_mut = c.weighted(&[15, 65, 20]);
     let plan = c.bytes(24);
     let finding_constructs = c.bool(40);
     let sub_heavy = c.bool(40);
+    let with_fixture = c.bool(150);
     let sopts = gschema::Opts::default();
     let mut schema_doc = gschema::schema(c, &sopts);
+    if with_fixture {
+        crate::gen::opfixture::add_fixture(&mut schema_doc);
+    }
     if c.bool(60) {
         gschema::split_extensions(c, &mut schema_doc);
     }
     let rs = RefSchema::from_document(&schema_doc);
-    let opts = OpOpts { null_in_custom_scalar_list: allow_mutation && finding_constructs, subscription_weight: if sub_heavy { 150 } else { 15 }, ..OpOpts::default() };
+    let opts = OpOpts { null_in_custom_scalar_list: finding_constructs, subscription_weight: if sub_heavy { 150 } else { 15 }, ..OpOpts::default() };
     let mut doc = operation::valid_document(c, &rs, &opts);
     let mut mutators = vec![];
     if allow_mutation {
         let mut pc = Choices::new(&plan);
         for _ in 0..n_mut {
-            if let Some(m) = opmutate::mutate(&mut pc, &mut doc, &rs) {
+            let m = if mode == Mode::Neutral { opmutate::mutate_neutral(&mut pc, &mut doc, &rs) } else { opmutate::mutate(&mut pc, &mut doc, &rs) };
+            if let Some(m) = m {
                 mutators.push(m);
             }
         }
@@ -139,6 +164,26 @@ pub fn check_pair(schema_text: &str, doc_text: &str, label: &str, ctx: &mut Ctx)
         Err(_) => return ctx.skip("schema text not parsed by the reference parser"),
     };
     ctx.class(format!("{}|{}", label, reference.label()));
+    // rule x verdict: every rule code the reference reports (violated), and for documents the
+    // reference accepts the constructs they contain (the rules those constructs exercise are
+    // satisfied)
+    match &reference {
+        Verdict::Invalid(codes) => {
+            for c in codes {
+                ctx.class(format!("violated:{}", c));
+            }
+        }
+        Verdict::Valid => {
+            for c in constructs(doc_text) {
+                ctx.class(format!("satisfied:{}", c));
+            }
+        }
+        Verdict::Unspecified(why) => {
+            for w in why {
+                ctx.class(format!("unspecified:{}", w));
+            }
+        }
+    }
     let schema = match apollo_schema(schema_text) {
         Ok(s) => s,
         Err(_) => return ctx.skip("apollo rejects the schema"),
@@ -180,6 +225,119 @@ pub fn check_pair(schema_text: &str, doc_text: &str, label: &str, ctx: &mut Ctx)
     }
 }
 
+/// Constructs present in a document text (labels for the histogram only).
+pub fn constructs(doc_text: &str) -> Vec<&'static str> {
+    let Ok(d) = parse_document(doc_text) else { return vec![] };
+    use crate::refmodel::ast::*;
+    let mut out: BTreeSet<&'static str> = BTreeSet::new();
+    fn value(v: &Value, top: bool, out: &mut BTreeSet<&'static str>) {
+        match v {
+            Value::Var(_) => {
+                out.insert(if top { "variable-usage-top" } else { "variable-usage-nested" });
+            }
+            Value::List(l) => {
+                out.insert("list-literal");
+                l.iter().for_each(|x| value(x, false, out));
+            }
+            Value::Object(o) => {
+                out.insert("object-literal");
+                o.iter().for_each(|(_, x)| value(x, false, out));
+            }
+            Value::Null => {
+                out.insert("null-literal");
+            }
+            Value::Enum(_) => {
+                out.insert("enum-literal");
+            }
+            _ => {
+                out.insert("scalar-literal");
+            }
+        }
+    }
+    fn dirs(ds: &[Directive], out: &mut BTreeSet<&'static str>) {
+        for d in ds {
+            out.insert(if d.name == "skip" || d.name == "include" { "skip-include" } else { "custom-directive" });
+            d.args.iter().for_each(|(_, v)| value(v, true, out));
+        }
+        let mut names: Vec<&str> = ds.iter().map(|d| d.name.as_str()).collect();
+        names.sort();
+        if names.windows(2).any(|w| w[0] == w[1]) {
+            out.insert("repeated-directive");
+        }
+    }
+    fn sels(ss: &[Selection], out: &mut BTreeSet<&'static str>) {
+        let mut keys: Vec<&str> = vec![];
+        for s in ss {
+            match s {
+                Selection::Field(f) => {
+                    keys.push(f.response_key());
+                    if f.alias.is_some() {
+                        out.insert("alias");
+                    }
+                    if f.name.starts_with("__") {
+                        out.insert("meta-field");
+                    }
+                    if !f.args.is_empty() {
+                        out.insert("arguments");
+                    }
+                    out.insert(if f.selection_set.is_empty() { "leaf-field" } else { "composite-field" });
+                    f.args.iter().for_each(|(_, v)| value(v, true, out));
+                    dirs(&f.directives, out);
+                    sels(&f.selection_set, out);
+                }
+                Selection::Inline(i) => {
+                    out.insert(if i.type_condition.is_some() { "inline-fragment-typed" } else { "inline-fragment-untyped" });
+                    dirs(&i.directives, out);
+                    sels(&i.selection_set, out);
+                }
+                Selection::Spread(sp) => {
+                    out.insert("fragment-spread");
+                    dirs(&sp.directives, out);
+                }
+            }
+        }
+        keys.sort();
+        if keys.windows(2).any(|w| w[0] == w[1]) {
+            out.insert("same-key-siblings");
+        }
+    }
+    let mut n_ops = 0;
+    for def in &d.defs {
+        match def {
+            Definition::Operation(o) => {
+                n_ops += 1;
+                out.insert(match o.op {
+                    OpType::Query => "query",
+                    OpType::Mutation => "mutation",
+                    OpType::Subscription => "subscription",
+                });
+                if o.name.is_none() {
+                    out.insert("anonymous-operation");
+                }
+                for v in &o.vars {
+                    out.insert("variable-definition");
+                    if let Some(dv) = &v.default {
+                        out.insert(if *dv == Value::Null { "variable-default-null" } else { "variable-default" });
+                    }
+                    dirs(&v.directives, &mut out);
+                }
+                dirs(&o.directives, &mut out);
+                sels(&o.selection_set, &mut out);
+            }
+            Definition::Fragment(f) => {
+                out.insert("fragment-definition");
+                dirs(&f.directives, &mut out);
+                sels(&f.selection_set, &mut out);
+            }
+            _ => {}
+        }
+    }
+    if n_ops > 1 {
+        out.insert("several-operations");
+    }
+    out.into_iter().collect()
+}
+
 pub fn split_pair(text: &str) -> (String, String) {
     match text.find(SEP) {
         Some(i) => (text[..i + 1].to_string(), text[i + SEP.len()..].to_string()),
@@ -214,6 +372,26 @@ pub fn aux(args: &[String]) -> i32 {
     let arg = |name: &str| args.iter().position(|a| a == name).and_then(|i| args.get(i + 1)).cloned();
     if args.iter().any(|a| a == "files") {
         return calib_files();
+    }
+    if args.iter().any(|a| a == "case") {
+        // print and time one generated case: `verif aux --prop C17 case --index N [--seed S]`
+        let index: u64 = arg("--index").and_then(|s| s.parse().ok()).unwrap_or(0);
+        let seed: u64 = arg("--seed").and_then(|s| s.parse().ok()).unwrap_or(20260921);
+        let bytes = crate::runner::gen_case(seed, "C17", 0, index, 700);
+        let mut c = Choices::new(&bytes);
+        let case = gen_case(&mut c, true);
+        let st = print_document(&case.schema_doc);
+        let dt = print_document(&case.doc);
+        println!("mutators {:?}\n{}{}{}", case.mutators, st, SEP, dt);
+        let t = std::time::Instant::now();
+        let r = reference_verdict(&st, &dt).map(|x| x.0);
+        println!("reference {:?} in {:?}", r, t.elapsed());
+        let t = std::time::Instant::now();
+        if let Ok(schema) = apollo_schema(&st) {
+            let a = ExecutableDocument::parse_and_validate(&schema, &dt, "q.graphql");
+            println!("apollo {:?} in {:?}", a.as_ref().err().map(|e| diagnostic_kinds(&e.errors, None)), t.elapsed());
+        }
+        return 0;
     }
     if args.iter().any(|a| a == "find") {
         // print generated cases whose class label is `--label L|verdict`
